@@ -3,9 +3,10 @@
 (* Every listing of up to MaxRecs records over: the section "refgroup"     *)
 (* (G) with every subsection of up to MaxSub characters over {a, .} - so   *)
 (* "a..a", "a.", ".", ".a", "..", the empty subsection - and the built-in  *)
-(* group b and its child "b.a"; the variables include, exclude, name and   *)
-(* an unknown one; two values; "refgroup.<variable>" without a subsection; *)
-(* a look-alike section ("refgroupx") and a foreign one.                   *)
+(* group b and its child "b.a"; the variables include, exclude, their       *)
+(* regexp forms, name and an unknown one; two values; "refgroup.<var>"     *)
+(* without a subsection; a look-alike section ("refgroupx") and a foreign  *)
+(* one.                                                                    *)
 (* Checked: the coded reading of the keys gives the tree of groups, the    *)
 (* rules, the names, the refusal ("not defined") and the listed rows that  *)
 (* the declarative reading of git's structure gives, and the coded         *)
@@ -21,7 +22,7 @@ BuiltinsV == << <<"b">> >>    \* cfg: Builtins <- BuiltinsV
 
 Chars == {"a", Dot}
 Subs == UNION {[1..n -> Chars] : n \in 0..MaxSub} \cup { <<"b">>, <<"b", Dot, "a">> }
-Vars == {V_include, V_exclude, V_name, <<"u">>}
+Vars == {V_include, V_exclude, V_includere, V_excludere, V_name, <<"u">>}
 Values == {1, 2}
 
 Recs == {[sec |-> Sec, hassub |-> TRUE, sub |-> s, var |-> v, value |-> x] : s \in Subs, v \in Vars, x \in Values}
@@ -30,7 +31,8 @@ Recs == {[sec |-> Sec, hassub |-> TRUE, sub |-> s, var |-> v, value |-> x] : s \
               [sec |-> <<"f">>, hassub |-> TRUE, sub |-> <<"a">>, var |-> V_include, value |-> 2]}
 
 \* value 1 lies outside the built-in group's references, value 2 inside them
-ProbeSeq == << [v |-> 0, b |-> <<>>], [v |-> 1, b |-> <<>>], [v |-> 2, b |-> <<"b">>], [v |-> 0, b |-> <<"b">>] >>
+ProbeSeq == << [v |-> 0, b |-> <<>>, num |-> FALSE], [v |-> 1, b |-> <<>>, num |-> FALSE], [v |-> 1, b |-> <<>>, num |-> TRUE],
+              [v |-> 2, b |-> <<"b">>, num |-> FALSE], [v |-> 2, b |-> <<"b">>, num |-> TRUE], [v |-> 0, b |-> <<"b">>, num |-> FALSE] >>
 Probes == {ProbeSeq[i] : i \in 1..Len(ProbeSeq)}
 
 VARIABLES st, x
